@@ -699,7 +699,7 @@ def exhaustive_state(kinds, maxlen):
 
 def exhaustive_root():
     for op in ("check_root", "get_root", "set_root", "unset_root"):
-        for scopes in scope_subsets():
+        for scopes in sorted(scope_subsets(), key=len, reverse=True):     # realistic settings first
             for perm in ([scopes] if len(scopes) < 2 else [scopes, scopes[::-1]]):
                 for local in (False, True):
                     for pool in (False, True):
